@@ -144,7 +144,7 @@ Definition g_funcs : list gfn := [
   mkGfn "Store.split" ["Collection.freeNodeLoc"; "Collection.markReclaimable"; "Collection.mkNode"; "Collection.mkNodeLoc"; "Store.split"; "itemLoc.NumBytes"; "itemLoc.read"; "nodeLoc.Copy"; "nodeLoc.isEmpty"; "nodeLoc.read"; "numInfo"] [] false false false false false false true false;
   mkGfn "Store.union" ["Collection.freeNodeLoc"; "Collection.markReclaimable"; "Collection.mkNode"; "Collection.mkNodeLoc"; "Store.split"; "Store.union"; "itemLoc.NumBytes"; "itemLoc.read"; "nodeLoc.Copy"; "nodeLoc.Node"; "nodeLoc.isEmpty"; "nodeLoc.read"; "numInfo"] [] false false false false false false false false;
   mkGfn "Store.validateAndSetCollections" ["<json.Unmarshal>"; "Store.setColl"] [] false false false false false true false false;
-  mkGfn "Store.visitNodes" ["<dynamic:func(int,*gkvlite.node)(bool,*gkvlite.nodeLoc,*gkvlite.nodeLoc)>"; "Store.ItemDecRef"; "Store.visitNodes"; "itemLoc.read"; "node.Evict"; "nodeLoc.isEmpty"; "nodeLoc.read"] [] false false false true false false true false;
+  mkGfn "Store.visitNodes" ["<dynamic:func(int,*gkvlite.node)(bool,*gkvlite.nodeLoc,*gkvlite.nodeLoc)>"; "Store.ItemAddRef"; "Store.ItemDecRef"; "Store.visitNodes"; "itemLoc.read"; "node.Evict"; "nodeLoc.isEmpty"; "nodeLoc.read"] [] false false false true false false true false;
   mkGfn "Store.walk" ["<dynamic:func(*gkvlite.node)(*gkvlite.nodeLoc,bool)>"; "Collection.rootAddRef"; "Collection.rootDecRef"; "Store.ItemAddRef"; "itemLoc.read"; "nodeLoc.isEmpty"; "nodeLoc.read"] [] false false false true false false false false;
   mkGfn "Store.writeRoots" ["<json.Marshal>"] [] true false false false false false false false;
   mkGfn "StoreFile.Stat" [] [] false false false false false false false false;
@@ -206,7 +206,7 @@ Definition g_funcs : list gfn := [
 Definition g_reach : list (string * list string) := [
   ("<dynamic:func()()>", ["<dynamic:func()()>"; "<lit:Collection.AllocStats#1>"; "<lit:Collection.iterate#1>"; "<lit:Store.Flush#1>"; "Collection.freeNodeLoc"; "Collection.freeNodeUnlocked"; "Collection.freeRootNodeLoc"; "Collection.markTreeReclaimableUnlocked"; "Collection.reclaimNodesUnlocked"; "Collection.rootDecRef"; "Collection.rootDecRefUnlocked"; "Store.ItemDecRef"; "itemLoc.Item"; "nodeLoc.Node"; "nodeLoc.isEmpty"; "ploc.isEmpty"; "view.usage"]);
   ("<dynamic:func()(string)>", ["<dynamic:func()(string)>"]);
-  ("<dynamic:func(*gkvlite.Collection,gkvlite.ItemVisitor)(error)>", ["<dynamic:func(*gkvlite.Collection,gkvlite.ItemVisitor)(error)>"; "<dynamic:func(int,*gkvlite.node)(bool,*gkvlite.nodeLoc,*gkvlite.nodeLoc)>"; "<lit:Collection.iteratorVisitorAscend#1>"; "<lit:Collection.iteratorVisitorDescend#1>"; "Collection.VisitItemsAscend"; "Collection.VisitItemsAscendEx"; "Collection.VisitItemsDescend"; "Collection.VisitItemsDescendEx"; "Collection.freeNodeLoc"; "Collection.freeNodeUnlocked"; "Collection.freeRootNodeLoc"; "Collection.markTreeReclaimableUnlocked"; "Collection.reclaimNodesUnlocked"; "Collection.rootAddRef"; "Collection.rootDecRef"; "Collection.rootDecRefUnlocked"; "Store.ItemAlloc"; "Store.ItemDecRef"; "Store.ItemValRead"; "Store.visitNodes"; "ascendChoice"; "descendChoice"; "itemBa.getKeyLength"; "itemBa.getLength"; "itemBa.getPriority"; "itemBa.getValLength"; "itemBa.populate"; "itemLoc.Item"; "itemLoc.Loc"; "itemLoc.casItem"; "itemLoc.read"; "node.Evict"; "node.setNumBytes"; "node.setNumNodes"; "nodeLoc.LocNode"; "nodeLoc.Node"; "nodeLoc.isEmpty"; "nodeLoc.read"; "nodeLoc.setNode"; "ploc.isEmpty"; "ploc.read"; "populateNode"]);
+  ("<dynamic:func(*gkvlite.Collection,gkvlite.ItemVisitor)(error)>", ["<dynamic:func(*gkvlite.Collection,gkvlite.ItemVisitor)(error)>"; "<dynamic:func(int,*gkvlite.node)(bool,*gkvlite.nodeLoc,*gkvlite.nodeLoc)>"; "<lit:Collection.iteratorVisitorAscend#1>"; "<lit:Collection.iteratorVisitorDescend#1>"; "Collection.VisitItemsAscend"; "Collection.VisitItemsAscendEx"; "Collection.VisitItemsDescend"; "Collection.VisitItemsDescendEx"; "Collection.freeNodeLoc"; "Collection.freeNodeUnlocked"; "Collection.freeRootNodeLoc"; "Collection.markTreeReclaimableUnlocked"; "Collection.reclaimNodesUnlocked"; "Collection.rootAddRef"; "Collection.rootDecRef"; "Collection.rootDecRefUnlocked"; "Store.ItemAddRef"; "Store.ItemAlloc"; "Store.ItemDecRef"; "Store.ItemValRead"; "Store.visitNodes"; "ascendChoice"; "descendChoice"; "itemBa.getKeyLength"; "itemBa.getLength"; "itemBa.getPriority"; "itemBa.getValLength"; "itemBa.populate"; "itemLoc.Item"; "itemLoc.Loc"; "itemLoc.casItem"; "itemLoc.read"; "node.Evict"; "node.setNumBytes"; "node.setNumNodes"; "nodeLoc.LocNode"; "nodeLoc.Node"; "nodeLoc.isEmpty"; "nodeLoc.read"; "nodeLoc.setNode"; "ploc.isEmpty"; "ploc.read"; "populateNode"]);
   ("<dynamic:func(*gkvlite.node)(*gkvlite.nodeLoc,bool)>", ["<dynamic:func(*gkvlite.node)(*gkvlite.nodeLoc,bool)>"; "<lit:Collection.EvictSomeItems#1>"; "<lit:Collection.MaxItem#1>"; "<lit:Collection.MinItem#1>"; "Store.ItemDecRef"; "itemLoc.Item"; "itemLoc.Loc"; "itemLoc.casItem"; "node.Evict"; "nodeLoc.isEmpty"; "ploc.isEmpty"]);
   ("<dynamic:func(int,*gkvlite.node)(bool,*gkvlite.nodeLoc,*gkvlite.nodeLoc)>", ["<dynamic:func(int,*gkvlite.node)(bool,*gkvlite.nodeLoc,*gkvlite.nodeLoc)>"; "ascendChoice"; "descendChoice"]);
   ("<json.Marshal>", ["<json.Marshal>"; "Collection.MarshalJSON"; "Collection.freeNodeLoc"; "Collection.freeNodeUnlocked"; "Collection.freeRootNodeLoc"; "Collection.markTreeReclaimableUnlocked"; "Collection.reclaimNodesUnlocked"; "Collection.rootAddRef"; "Collection.rootDecRef"; "Collection.rootDecRefUnlocked"; "Store.ItemDecRef"; "itemLoc.Item"; "nodeLoc.Loc"; "nodeLoc.Node"; "nodeLoc.isEmpty"; "ploc.isEmpty"; "rootNodeLoc.MarshalJSON"]);
@@ -225,8 +225,8 @@ Definition g_reach : list (string * list string) := [
   ("<lit:Collection.VisitItemsRandom#2>", ["<lit:Collection.VisitItemsRandom#2>"]);
   ("<lit:Collection.iterate#1>", ["<lit:Collection.iterate#1>"]);
   ("<lit:Collection.iterate#2>", ["<lit:Collection.iterate#2>"]);
-  ("<lit:Collection.iteratorVisitorAscend#1>", ["<dynamic:func(int,*gkvlite.node)(bool,*gkvlite.nodeLoc,*gkvlite.nodeLoc)>"; "<lit:Collection.iteratorVisitorAscend#1>"; "Collection.VisitItemsAscend"; "Collection.VisitItemsAscendEx"; "Collection.freeNodeLoc"; "Collection.freeNodeUnlocked"; "Collection.freeRootNodeLoc"; "Collection.markTreeReclaimableUnlocked"; "Collection.reclaimNodesUnlocked"; "Collection.rootAddRef"; "Collection.rootDecRef"; "Collection.rootDecRefUnlocked"; "Store.ItemAlloc"; "Store.ItemDecRef"; "Store.ItemValRead"; "Store.visitNodes"; "ascendChoice"; "descendChoice"; "itemBa.getKeyLength"; "itemBa.getLength"; "itemBa.getPriority"; "itemBa.getValLength"; "itemBa.populate"; "itemLoc.Item"; "itemLoc.Loc"; "itemLoc.casItem"; "itemLoc.read"; "node.Evict"; "node.setNumBytes"; "node.setNumNodes"; "nodeLoc.LocNode"; "nodeLoc.Node"; "nodeLoc.isEmpty"; "nodeLoc.read"; "nodeLoc.setNode"; "ploc.isEmpty"; "ploc.read"; "populateNode"]);
-  ("<lit:Collection.iteratorVisitorDescend#1>", ["<dynamic:func(int,*gkvlite.node)(bool,*gkvlite.nodeLoc,*gkvlite.nodeLoc)>"; "<lit:Collection.iteratorVisitorDescend#1>"; "Collection.VisitItemsDescend"; "Collection.VisitItemsDescendEx"; "Collection.freeNodeLoc"; "Collection.freeNodeUnlocked"; "Collection.freeRootNodeLoc"; "Collection.markTreeReclaimableUnlocked"; "Collection.reclaimNodesUnlocked"; "Collection.rootAddRef"; "Collection.rootDecRef"; "Collection.rootDecRefUnlocked"; "Store.ItemAlloc"; "Store.ItemDecRef"; "Store.ItemValRead"; "Store.visitNodes"; "ascendChoice"; "descendChoice"; "itemBa.getKeyLength"; "itemBa.getLength"; "itemBa.getPriority"; "itemBa.getValLength"; "itemBa.populate"; "itemLoc.Item"; "itemLoc.Loc"; "itemLoc.casItem"; "itemLoc.read"; "node.Evict"; "node.setNumBytes"; "node.setNumNodes"; "nodeLoc.LocNode"; "nodeLoc.Node"; "nodeLoc.isEmpty"; "nodeLoc.read"; "nodeLoc.setNode"; "ploc.isEmpty"; "ploc.read"; "populateNode"]);
+  ("<lit:Collection.iteratorVisitorAscend#1>", ["<dynamic:func(int,*gkvlite.node)(bool,*gkvlite.nodeLoc,*gkvlite.nodeLoc)>"; "<lit:Collection.iteratorVisitorAscend#1>"; "Collection.VisitItemsAscend"; "Collection.VisitItemsAscendEx"; "Collection.freeNodeLoc"; "Collection.freeNodeUnlocked"; "Collection.freeRootNodeLoc"; "Collection.markTreeReclaimableUnlocked"; "Collection.reclaimNodesUnlocked"; "Collection.rootAddRef"; "Collection.rootDecRef"; "Collection.rootDecRefUnlocked"; "Store.ItemAddRef"; "Store.ItemAlloc"; "Store.ItemDecRef"; "Store.ItemValRead"; "Store.visitNodes"; "ascendChoice"; "descendChoice"; "itemBa.getKeyLength"; "itemBa.getLength"; "itemBa.getPriority"; "itemBa.getValLength"; "itemBa.populate"; "itemLoc.Item"; "itemLoc.Loc"; "itemLoc.casItem"; "itemLoc.read"; "node.Evict"; "node.setNumBytes"; "node.setNumNodes"; "nodeLoc.LocNode"; "nodeLoc.Node"; "nodeLoc.isEmpty"; "nodeLoc.read"; "nodeLoc.setNode"; "ploc.isEmpty"; "ploc.read"; "populateNode"]);
+  ("<lit:Collection.iteratorVisitorDescend#1>", ["<dynamic:func(int,*gkvlite.node)(bool,*gkvlite.nodeLoc,*gkvlite.nodeLoc)>"; "<lit:Collection.iteratorVisitorDescend#1>"; "Collection.VisitItemsDescend"; "Collection.VisitItemsDescendEx"; "Collection.freeNodeLoc"; "Collection.freeNodeUnlocked"; "Collection.freeRootNodeLoc"; "Collection.markTreeReclaimableUnlocked"; "Collection.reclaimNodesUnlocked"; "Collection.rootAddRef"; "Collection.rootDecRef"; "Collection.rootDecRefUnlocked"; "Store.ItemAddRef"; "Store.ItemAlloc"; "Store.ItemDecRef"; "Store.ItemValRead"; "Store.visitNodes"; "ascendChoice"; "descendChoice"; "itemBa.getKeyLength"; "itemBa.getLength"; "itemBa.getPriority"; "itemBa.getValLength"; "itemBa.populate"; "itemLoc.Item"; "itemLoc.Loc"; "itemLoc.casItem"; "itemLoc.read"; "node.Evict"; "node.setNumBytes"; "node.setNumNodes"; "nodeLoc.LocNode"; "nodeLoc.Node"; "nodeLoc.isEmpty"; "nodeLoc.read"; "nodeLoc.setNode"; "ploc.isEmpty"; "ploc.read"; "populateNode"]);
   ("<lit:Store.CopyTo#1>", ["<dynamic:func(*gkvlite.node)(*gkvlite.nodeLoc,bool)>"; "<json.Marshal>"; "<lit:Collection.EvictSomeItems#1>"; "<lit:Collection.MaxItem#1>"; "<lit:Collection.MinItem#1>"; "<lit:Store.CopyTo#1>"; "Collection.EvictSomeItems"; "Collection.MarshalJSON"; "Collection.Name"; "Collection.SetItem"; "Collection.freeNodeLoc"; "Collection.freeNodeUnlocked"; "Collection.freeRootNodeLoc"; "Collection.markReclaimable"; "Collection.markTreeReclaimableUnlocked"; "Collection.mkNode"; "Collection.mkNodeLoc"; "Collection.mkRootNodeLoc"; "Collection.reclaimMarkUpdate"; "Collection.reclaimNodesUnlocked"; "Collection.rootAddRef"; "Collection.rootCAS"; "Collection.rootDecRef"; "Collection.rootDecRefUnlocked"; "Collection.unmarkReclaimable"; "Collection.write"; "Collection.writeItems"; "Collection.writeNodes"; "Item.NumBytes"; "Item.NumValBytes"; "Store.Flush"; "Store.ItemAddRef"; "Store.ItemAlloc"; "Store.ItemDecRef"; "Store.ItemValRead"; "Store.ItemValWrite"; "Store.getColl"; "Store.getSize"; "Store.setSize"; "Store.split"; "Store.union"; "Store.walk"; "Store.writeRoots"; "collNames"; "itemBa.getKeyLength"; "itemBa.getLength"; "itemBa.getPriority"; "itemBa.getValLength"; "itemBa.populate"; "itemBa.render"; "itemLoc.Copy"; "itemLoc.Item"; "itemLoc.Loc"; "itemLoc.NumBytes"; "itemLoc.casItem"; "itemLoc.read"; "itemLoc.setLoc"; "itemLoc.write"; "node.Evict"; "node.populateDiskStruct"; "node.setNumBytes"; "node.setNumNodes"; "nodeLoc.Copy"; "nodeLoc.Loc"; "nodeLoc.LocNode"; "nodeLoc.Node"; "nodeLoc.isEmpty"; "nodeLoc.read"; "nodeLoc.setLoc"; "nodeLoc.setNode"; "nodeLoc.write"; "numInfo"; "ploc.isEmpty"; "ploc.read"; "ploc.write"; "populateNode"; "rootNodeLoc.MarshalJSON"]);
   ("<lit:Store.Flush#1>", ["<lit:Store.Flush#1>"; "Collection.freeNodeLoc"; "Collection.freeNodeUnlocked"; "Collection.freeRootNodeLoc"; "Collection.markTreeReclaimableUnlocked"; "Collection.reclaimNodesUnlocked"; "Collection.rootDecRef"; "Collection.rootDecRefUnlocked"; "Store.ItemDecRef"; "itemLoc.Item"; "nodeLoc.Node"; "nodeLoc.isEmpty"; "ploc.isEmpty"]);
   ("<lit:Store.visitNodes#1>", ["<lit:Store.visitNodes#1>"; "Store.ItemDecRef"; "itemLoc.Item"; "itemLoc.Loc"; "itemLoc.casItem"; "node.Evict"; "ploc.isEmpty"]);
@@ -241,8 +241,8 @@ Definition g_reach : list (string * list string) := [
   ("Collection.GetAny", ["ByteAble.ToBa"; "Collection.Get"; "Collection.GetAny"; "Collection.GetItem"; "Collection.freeNodeLoc"; "Collection.freeNodeUnlocked"; "Collection.freeRootNodeLoc"; "Collection.markTreeReclaimableUnlocked"; "Collection.reclaimNodesUnlocked"; "Collection.rootAddRef"; "Collection.rootDecRef"; "Collection.rootDecRefUnlocked"; "Store.ItemAddRef"; "Store.ItemAlloc"; "Store.ItemDecRef"; "Store.ItemValRead"; "itemBa.getKeyLength"; "itemBa.getLength"; "itemBa.getPriority"; "itemBa.getValLength"; "itemBa.populate"; "itemLoc.Item"; "itemLoc.Loc"; "itemLoc.casItem"; "itemLoc.read"; "node.setNumBytes"; "node.setNumNodes"; "nodeLoc.LocNode"; "nodeLoc.Node"; "nodeLoc.isEmpty"; "nodeLoc.read"; "nodeLoc.setNode"; "ploc.isEmpty"; "ploc.read"; "populateNode"; "toBa"]);
   ("Collection.GetItem", ["Collection.GetItem"; "Collection.freeNodeLoc"; "Collection.freeNodeUnlocked"; "Collection.freeRootNodeLoc"; "Collection.markTreeReclaimableUnlocked"; "Collection.reclaimNodesUnlocked"; "Collection.rootAddRef"; "Collection.rootDecRef"; "Collection.rootDecRefUnlocked"; "Store.ItemAddRef"; "Store.ItemAlloc"; "Store.ItemDecRef"; "Store.ItemValRead"; "itemBa.getKeyLength"; "itemBa.getLength"; "itemBa.getPriority"; "itemBa.getValLength"; "itemBa.populate"; "itemLoc.Item"; "itemLoc.Loc"; "itemLoc.casItem"; "itemLoc.read"; "node.setNumBytes"; "node.setNumNodes"; "nodeLoc.LocNode"; "nodeLoc.Node"; "nodeLoc.isEmpty"; "nodeLoc.read"; "nodeLoc.setNode"; "ploc.isEmpty"; "ploc.read"; "populateNode"]);
   ("Collection.GetTotals", ["Collection.GetTotals"; "Collection.freeNodeLoc"; "Collection.freeNodeUnlocked"; "Collection.freeRootNodeLoc"; "Collection.markTreeReclaimableUnlocked"; "Collection.reclaimNodesUnlocked"; "Collection.rootAddRef"; "Collection.rootDecRef"; "Collection.rootDecRefUnlocked"; "Store.ItemDecRef"; "itemLoc.Item"; "node.setNumBytes"; "node.setNumNodes"; "nodeLoc.LocNode"; "nodeLoc.Node"; "nodeLoc.isEmpty"; "nodeLoc.read"; "nodeLoc.setNode"; "ploc.isEmpty"; "ploc.read"; "populateNode"]);
-  ("Collection.IterateAscend", ["<dynamic:func(*gkvlite.Collection,gkvlite.ItemVisitor)(error)>"; "<dynamic:func(int,*gkvlite.node)(bool,*gkvlite.nodeLoc,*gkvlite.nodeLoc)>"; "<lit:Collection.iteratorVisitorAscend#1>"; "<lit:Collection.iteratorVisitorDescend#1>"; "Collection.IterateAscend"; "Collection.VisitItemsAscend"; "Collection.VisitItemsAscendEx"; "Collection.VisitItemsDescend"; "Collection.VisitItemsDescendEx"; "Collection.freeNodeLoc"; "Collection.freeNodeUnlocked"; "Collection.freeRootNodeLoc"; "Collection.iterate"; "Collection.iteratorVisitorAscend"; "Collection.markTreeReclaimableUnlocked"; "Collection.reclaimNodesUnlocked"; "Collection.rootAddRef"; "Collection.rootDecRef"; "Collection.rootDecRefUnlocked"; "Store.ItemAlloc"; "Store.ItemDecRef"; "Store.ItemValRead"; "Store.visitNodes"; "ascendChoice"; "descendChoice"; "itemBa.getKeyLength"; "itemBa.getLength"; "itemBa.getPriority"; "itemBa.getValLength"; "itemBa.populate"; "itemLoc.Item"; "itemLoc.Loc"; "itemLoc.casItem"; "itemLoc.read"; "newIterator"; "node.Evict"; "node.setNumBytes"; "node.setNumNodes"; "nodeLoc.LocNode"; "nodeLoc.Node"; "nodeLoc.isEmpty"; "nodeLoc.read"; "nodeLoc.setNode"; "ploc.isEmpty"; "ploc.read"; "populateNode"]);
-  ("Collection.IterateDescend", ["<dynamic:func(*gkvlite.Collection,gkvlite.ItemVisitor)(error)>"; "<dynamic:func(int,*gkvlite.node)(bool,*gkvlite.nodeLoc,*gkvlite.nodeLoc)>"; "<lit:Collection.iteratorVisitorAscend#1>"; "<lit:Collection.iteratorVisitorDescend#1>"; "Collection.IterateDescend"; "Collection.VisitItemsAscend"; "Collection.VisitItemsAscendEx"; "Collection.VisitItemsDescend"; "Collection.VisitItemsDescendEx"; "Collection.freeNodeLoc"; "Collection.freeNodeUnlocked"; "Collection.freeRootNodeLoc"; "Collection.iterate"; "Collection.iteratorVisitorDescend"; "Collection.markTreeReclaimableUnlocked"; "Collection.reclaimNodesUnlocked"; "Collection.rootAddRef"; "Collection.rootDecRef"; "Collection.rootDecRefUnlocked"; "Store.ItemAlloc"; "Store.ItemDecRef"; "Store.ItemValRead"; "Store.visitNodes"; "ascendChoice"; "descendChoice"; "itemBa.getKeyLength"; "itemBa.getLength"; "itemBa.getPriority"; "itemBa.getValLength"; "itemBa.populate"; "itemLoc.Item"; "itemLoc.Loc"; "itemLoc.casItem"; "itemLoc.read"; "newIterator"; "node.Evict"; "node.setNumBytes"; "node.setNumNodes"; "nodeLoc.LocNode"; "nodeLoc.Node"; "nodeLoc.isEmpty"; "nodeLoc.read"; "nodeLoc.setNode"; "ploc.isEmpty"; "ploc.read"; "populateNode"]);
+  ("Collection.IterateAscend", ["<dynamic:func(*gkvlite.Collection,gkvlite.ItemVisitor)(error)>"; "<dynamic:func(int,*gkvlite.node)(bool,*gkvlite.nodeLoc,*gkvlite.nodeLoc)>"; "<lit:Collection.iteratorVisitorAscend#1>"; "<lit:Collection.iteratorVisitorDescend#1>"; "Collection.IterateAscend"; "Collection.VisitItemsAscend"; "Collection.VisitItemsAscendEx"; "Collection.VisitItemsDescend"; "Collection.VisitItemsDescendEx"; "Collection.freeNodeLoc"; "Collection.freeNodeUnlocked"; "Collection.freeRootNodeLoc"; "Collection.iterate"; "Collection.iteratorVisitorAscend"; "Collection.markTreeReclaimableUnlocked"; "Collection.reclaimNodesUnlocked"; "Collection.rootAddRef"; "Collection.rootDecRef"; "Collection.rootDecRefUnlocked"; "Store.ItemAddRef"; "Store.ItemAlloc"; "Store.ItemDecRef"; "Store.ItemValRead"; "Store.visitNodes"; "ascendChoice"; "descendChoice"; "itemBa.getKeyLength"; "itemBa.getLength"; "itemBa.getPriority"; "itemBa.getValLength"; "itemBa.populate"; "itemLoc.Item"; "itemLoc.Loc"; "itemLoc.casItem"; "itemLoc.read"; "newIterator"; "node.Evict"; "node.setNumBytes"; "node.setNumNodes"; "nodeLoc.LocNode"; "nodeLoc.Node"; "nodeLoc.isEmpty"; "nodeLoc.read"; "nodeLoc.setNode"; "ploc.isEmpty"; "ploc.read"; "populateNode"]);
+  ("Collection.IterateDescend", ["<dynamic:func(*gkvlite.Collection,gkvlite.ItemVisitor)(error)>"; "<dynamic:func(int,*gkvlite.node)(bool,*gkvlite.nodeLoc,*gkvlite.nodeLoc)>"; "<lit:Collection.iteratorVisitorAscend#1>"; "<lit:Collection.iteratorVisitorDescend#1>"; "Collection.IterateDescend"; "Collection.VisitItemsAscend"; "Collection.VisitItemsAscendEx"; "Collection.VisitItemsDescend"; "Collection.VisitItemsDescendEx"; "Collection.freeNodeLoc"; "Collection.freeNodeUnlocked"; "Collection.freeRootNodeLoc"; "Collection.iterate"; "Collection.iteratorVisitorDescend"; "Collection.markTreeReclaimableUnlocked"; "Collection.reclaimNodesUnlocked"; "Collection.rootAddRef"; "Collection.rootDecRef"; "Collection.rootDecRefUnlocked"; "Store.ItemAddRef"; "Store.ItemAlloc"; "Store.ItemDecRef"; "Store.ItemValRead"; "Store.visitNodes"; "ascendChoice"; "descendChoice"; "itemBa.getKeyLength"; "itemBa.getLength"; "itemBa.getPriority"; "itemBa.getValLength"; "itemBa.populate"; "itemLoc.Item"; "itemLoc.Loc"; "itemLoc.casItem"; "itemLoc.read"; "newIterator"; "node.Evict"; "node.setNumBytes"; "node.setNumNodes"; "nodeLoc.LocNode"; "nodeLoc.Node"; "nodeLoc.isEmpty"; "nodeLoc.read"; "nodeLoc.setNode"; "ploc.isEmpty"; "ploc.read"; "populateNode"]);
   ("Collection.Len", ["<dynamic:func(*gkvlite.node)(*gkvlite.nodeLoc,bool)>"; "<dynamic:func(int,*gkvlite.node)(bool,*gkvlite.nodeLoc,*gkvlite.nodeLoc)>"; "<lit:Collection.EvictSomeItems#1>"; "<lit:Collection.MaxItem#1>"; "<lit:Collection.MinItem#1>"; "Collection.Len"; "Collection.MinItem"; "Collection.VisitItemsAscendEx"; "Collection.freeNodeLoc"; "Collection.freeNodeUnlocked"; "Collection.freeRootNodeLoc"; "Collection.markTreeReclaimableUnlocked"; "Collection.reclaimNodesUnlocked"; "Collection.rootAddRef"; "Collection.rootDecRef"; "Collection.rootDecRefUnlocked"; "Store.ItemAddRef"; "Store.ItemAlloc"; "Store.ItemDecRef"; "Store.ItemValRead"; "Store.visitNodes"; "Store.walk"; "ascendChoice"; "descendChoice"; "itemBa.getKeyLength"; "itemBa.getLength"; "itemBa.getPriority"; "itemBa.getValLength"; "itemBa.populate"; "itemLoc.Item"; "itemLoc.Loc"; "itemLoc.casItem"; "itemLoc.read"; "node.Evict"; "node.setNumBytes"; "node.setNumNodes"; "nodeLoc.LocNode"; "nodeLoc.Node"; "nodeLoc.isEmpty"; "nodeLoc.read"; "nodeLoc.setNode"; "ploc.isEmpty"; "ploc.read"; "populateNode"]);
   ("Collection.MarshalJSON", ["<json.Marshal>"; "Collection.MarshalJSON"; "Collection.freeNodeLoc"; "Collection.freeNodeUnlocked"; "Collection.freeRootNodeLoc"; "Collection.markTreeReclaimableUnlocked"; "Collection.reclaimNodesUnlocked"; "Collection.rootAddRef"; "Collection.rootDecRef"; "Collection.rootDecRefUnlocked"; "Store.ItemDecRef"; "itemLoc.Item"; "nodeLoc.Loc"; "nodeLoc.Node"; "nodeLoc.isEmpty"; "ploc.isEmpty"; "rootNodeLoc.MarshalJSON"]);
   ("Collection.MaxItem", ["<dynamic:func(*gkvlite.node)(*gkvlite.nodeLoc,bool)>"; "<lit:Collection.EvictSomeItems#1>"; "<lit:Collection.MaxItem#1>"; "<lit:Collection.MinItem#1>"; "Collection.MaxItem"; "Collection.freeNodeLoc"; "Collection.freeNodeUnlocked"; "Collection.freeRootNodeLoc"; "Collection.markTreeReclaimableUnlocked"; "Collection.reclaimNodesUnlocked"; "Collection.rootAddRef"; "Collection.rootDecRef"; "Collection.rootDecRefUnlocked"; "Store.ItemAddRef"; "Store.ItemAlloc"; "Store.ItemDecRef"; "Store.ItemValRead"; "Store.walk"; "itemBa.getKeyLength"; "itemBa.getLength"; "itemBa.getPriority"; "itemBa.getValLength"; "itemBa.populate"; "itemLoc.Item"; "itemLoc.Loc"; "itemLoc.casItem"; "itemLoc.read"; "node.Evict"; "node.setNumBytes"; "node.setNumNodes"; "nodeLoc.LocNode"; "nodeLoc.Node"; "nodeLoc.isEmpty"; "nodeLoc.read"; "nodeLoc.setNode"; "ploc.isEmpty"; "ploc.read"; "populateNode"]);
@@ -252,11 +252,11 @@ Definition g_reach : list (string * list string) := [
   ("Collection.SetAny", ["ByteAble.ToBa"; "Collection.Name"; "Collection.Set"; "Collection.SetAny"; "Collection.SetItem"; "Collection.freeNodeLoc"; "Collection.freeNodeUnlocked"; "Collection.freeRootNodeLoc"; "Collection.markReclaimable"; "Collection.markTreeReclaimableUnlocked"; "Collection.mkNode"; "Collection.mkNodeLoc"; "Collection.mkRootNodeLoc"; "Collection.reclaimMarkUpdate"; "Collection.reclaimNodesUnlocked"; "Collection.rootAddRef"; "Collection.rootCAS"; "Collection.rootDecRef"; "Collection.rootDecRefUnlocked"; "Collection.unmarkReclaimable"; "Item.NumBytes"; "Item.NumValBytes"; "Store.ItemAddRef"; "Store.ItemAlloc"; "Store.ItemDecRef"; "Store.ItemValRead"; "Store.split"; "Store.union"; "itemBa.getKeyLength"; "itemBa.getLength"; "itemBa.getPriority"; "itemBa.getValLength"; "itemBa.populate"; "itemLoc.Copy"; "itemLoc.Item"; "itemLoc.Loc"; "itemLoc.NumBytes"; "itemLoc.casItem"; "itemLoc.read"; "node.setNumBytes"; "node.setNumNodes"; "nodeLoc.Copy"; "nodeLoc.LocNode"; "nodeLoc.Node"; "nodeLoc.isEmpty"; "nodeLoc.read"; "nodeLoc.setNode"; "numInfo"; "ploc.isEmpty"; "ploc.read"; "populateNode"; "toBa"]);
   ("Collection.SetItem", ["Collection.Name"; "Collection.SetItem"; "Collection.freeNodeLoc"; "Collection.freeNodeUnlocked"; "Collection.freeRootNodeLoc"; "Collection.markReclaimable"; "Collection.markTreeReclaimableUnlocked"; "Collection.mkNode"; "Collection.mkNodeLoc"; "Collection.mkRootNodeLoc"; "Collection.reclaimMarkUpdate"; "Collection.reclaimNodesUnlocked"; "Collection.rootAddRef"; "Collection.rootCAS"; "Collection.rootDecRef"; "Collection.rootDecRefUnlocked"; "Collection.unmarkReclaimable"; "Item.NumBytes"; "Item.NumValBytes"; "Store.ItemAddRef"; "Store.ItemAlloc"; "Store.ItemDecRef"; "Store.ItemValRead"; "Store.split"; "Store.union"; "itemBa.getKeyLength"; "itemBa.getLength"; "itemBa.getPriority"; "itemBa.getValLength"; "itemBa.populate"; "itemLoc.Copy"; "itemLoc.Item"; "itemLoc.Loc"; "itemLoc.NumBytes"; "itemLoc.casItem"; "itemLoc.read"; "node.setNumBytes"; "node.setNumNodes"; "nodeLoc.Copy"; "nodeLoc.LocNode"; "nodeLoc.Node"; "nodeLoc.isEmpty"; "nodeLoc.read"; "nodeLoc.setNode"; "numInfo"; "ploc.isEmpty"; "ploc.read"; "populateNode"]);
   ("Collection.UnmarshalJSON", ["<json.Unmarshal>"; "Collection.Name"; "Collection.UnmarshalJSON"; "Collection.mkNodeLoc"; "Collection.mkRootNodeLoc"; "Collection.rootCAS"]);
-  ("Collection.VisitItemsAscend", ["<dynamic:func(int,*gkvlite.node)(bool,*gkvlite.nodeLoc,*gkvlite.nodeLoc)>"; "Collection.VisitItemsAscend"; "Collection.VisitItemsAscendEx"; "Collection.freeNodeLoc"; "Collection.freeNodeUnlocked"; "Collection.freeRootNodeLoc"; "Collection.markTreeReclaimableUnlocked"; "Collection.reclaimNodesUnlocked"; "Collection.rootAddRef"; "Collection.rootDecRef"; "Collection.rootDecRefUnlocked"; "Store.ItemAlloc"; "Store.ItemDecRef"; "Store.ItemValRead"; "Store.visitNodes"; "ascendChoice"; "descendChoice"; "itemBa.getKeyLength"; "itemBa.getLength"; "itemBa.getPriority"; "itemBa.getValLength"; "itemBa.populate"; "itemLoc.Item"; "itemLoc.Loc"; "itemLoc.casItem"; "itemLoc.read"; "node.Evict"; "node.setNumBytes"; "node.setNumNodes"; "nodeLoc.LocNode"; "nodeLoc.Node"; "nodeLoc.isEmpty"; "nodeLoc.read"; "nodeLoc.setNode"; "ploc.isEmpty"; "ploc.read"; "populateNode"]);
+  ("Collection.VisitItemsAscend", ["<dynamic:func(int,*gkvlite.node)(bool,*gkvlite.nodeLoc,*gkvlite.nodeLoc)>"; "Collection.VisitItemsAscend"; "Collection.VisitItemsAscendEx"; "Collection.freeNodeLoc"; "Collection.freeNodeUnlocked"; "Collection.freeRootNodeLoc"; "Collection.markTreeReclaimableUnlocked"; "Collection.reclaimNodesUnlocked"; "Collection.rootAddRef"; "Collection.rootDecRef"; "Collection.rootDecRefUnlocked"; "Store.ItemAddRef"; "Store.ItemAlloc"; "Store.ItemDecRef"; "Store.ItemValRead"; "Store.visitNodes"; "ascendChoice"; "descendChoice"; "itemBa.getKeyLength"; "itemBa.getLength"; "itemBa.getPriority"; "itemBa.getValLength"; "itemBa.populate"; "itemLoc.Item"; "itemLoc.Loc"; "itemLoc.casItem"; "itemLoc.read"; "node.Evict"; "node.setNumBytes"; "node.setNumNodes"; "nodeLoc.LocNode"; "nodeLoc.Node"; "nodeLoc.isEmpty"; "nodeLoc.read"; "nodeLoc.setNode"; "ploc.isEmpty"; "ploc.read"; "populateNode"]);
   ("Collection.VisitItemsAscendBlockEx", ["<dynamic:func(*gkvlite.node)(*gkvlite.nodeLoc,bool)>"; "<dynamic:func(int,*gkvlite.node)(bool,*gkvlite.nodeLoc,*gkvlite.nodeLoc)>"; "<lit:Collection.EvictSomeItems#1>"; "<lit:Collection.MaxItem#1>"; "<lit:Collection.MinItem#1>"; "Collection.Len"; "Collection.MinItem"; "Collection.VisitItemsAscendBlockEx"; "Collection.VisitItemsAscendEx"; "Collection.determineBlocks"; "Collection.freeNodeLoc"; "Collection.freeNodeUnlocked"; "Collection.freeRootNodeLoc"; "Collection.markTreeReclaimableUnlocked"; "Collection.reclaimNodesUnlocked"; "Collection.rootAddRef"; "Collection.rootDecRef"; "Collection.rootDecRefUnlocked"; "Store.ItemAddRef"; "Store.ItemAlloc"; "Store.ItemDecRef"; "Store.ItemValRead"; "Store.visitNodes"; "Store.walk"; "ascendChoice"; "descendChoice"; "itemBa.getKeyLength"; "itemBa.getLength"; "itemBa.getPriority"; "itemBa.getValLength"; "itemBa.populate"; "itemLoc.Item"; "itemLoc.Loc"; "itemLoc.casItem"; "itemLoc.read"; "node.Evict"; "node.setNumBytes"; "node.setNumNodes"; "nodeLoc.LocNode"; "nodeLoc.Node"; "nodeLoc.isEmpty"; "nodeLoc.read"; "nodeLoc.setNode"; "ploc.isEmpty"; "ploc.read"; "populateNode"]);
-  ("Collection.VisitItemsAscendEx", ["<dynamic:func(int,*gkvlite.node)(bool,*gkvlite.nodeLoc,*gkvlite.nodeLoc)>"; "Collection.VisitItemsAscendEx"; "Collection.freeNodeLoc"; "Collection.freeNodeUnlocked"; "Collection.freeRootNodeLoc"; "Collection.markTreeReclaimableUnlocked"; "Collection.reclaimNodesUnlocked"; "Collection.rootAddRef"; "Collection.rootDecRef"; "Collection.rootDecRefUnlocked"; "Store.ItemAlloc"; "Store.ItemDecRef"; "Store.ItemValRead"; "Store.visitNodes"; "ascendChoice"; "descendChoice"; "itemBa.getKeyLength"; "itemBa.getLength"; "itemBa.getPriority"; "itemBa.getValLength"; "itemBa.populate"; "itemLoc.Item"; "itemLoc.Loc"; "itemLoc.casItem"; "itemLoc.read"; "node.Evict"; "node.setNumBytes"; "node.setNumNodes"; "nodeLoc.LocNode"; "nodeLoc.Node"; "nodeLoc.isEmpty"; "nodeLoc.read"; "nodeLoc.setNode"; "ploc.isEmpty"; "ploc.read"; "populateNode"]);
-  ("Collection.VisitItemsDescend", ["<dynamic:func(int,*gkvlite.node)(bool,*gkvlite.nodeLoc,*gkvlite.nodeLoc)>"; "Collection.VisitItemsDescend"; "Collection.VisitItemsDescendEx"; "Collection.freeNodeLoc"; "Collection.freeNodeUnlocked"; "Collection.freeRootNodeLoc"; "Collection.markTreeReclaimableUnlocked"; "Collection.reclaimNodesUnlocked"; "Collection.rootAddRef"; "Collection.rootDecRef"; "Collection.rootDecRefUnlocked"; "Store.ItemAlloc"; "Store.ItemDecRef"; "Store.ItemValRead"; "Store.visitNodes"; "ascendChoice"; "descendChoice"; "itemBa.getKeyLength"; "itemBa.getLength"; "itemBa.getPriority"; "itemBa.getValLength"; "itemBa.populate"; "itemLoc.Item"; "itemLoc.Loc"; "itemLoc.casItem"; "itemLoc.read"; "node.Evict"; "node.setNumBytes"; "node.setNumNodes"; "nodeLoc.LocNode"; "nodeLoc.Node"; "nodeLoc.isEmpty"; "nodeLoc.read"; "nodeLoc.setNode"; "ploc.isEmpty"; "ploc.read"; "populateNode"]);
-  ("Collection.VisitItemsDescendEx", ["<dynamic:func(int,*gkvlite.node)(bool,*gkvlite.nodeLoc,*gkvlite.nodeLoc)>"; "Collection.VisitItemsDescendEx"; "Collection.freeNodeLoc"; "Collection.freeNodeUnlocked"; "Collection.freeRootNodeLoc"; "Collection.markTreeReclaimableUnlocked"; "Collection.reclaimNodesUnlocked"; "Collection.rootAddRef"; "Collection.rootDecRef"; "Collection.rootDecRefUnlocked"; "Store.ItemAlloc"; "Store.ItemDecRef"; "Store.ItemValRead"; "Store.visitNodes"; "ascendChoice"; "descendChoice"; "itemBa.getKeyLength"; "itemBa.getLength"; "itemBa.getPriority"; "itemBa.getValLength"; "itemBa.populate"; "itemLoc.Item"; "itemLoc.Loc"; "itemLoc.casItem"; "itemLoc.read"; "node.Evict"; "node.setNumBytes"; "node.setNumNodes"; "nodeLoc.LocNode"; "nodeLoc.Node"; "nodeLoc.isEmpty"; "nodeLoc.read"; "nodeLoc.setNode"; "ploc.isEmpty"; "ploc.read"; "populateNode"]);
+  ("Collection.VisitItemsAscendEx", ["<dynamic:func(int,*gkvlite.node)(bool,*gkvlite.nodeLoc,*gkvlite.nodeLoc)>"; "Collection.VisitItemsAscendEx"; "Collection.freeNodeLoc"; "Collection.freeNodeUnlocked"; "Collection.freeRootNodeLoc"; "Collection.markTreeReclaimableUnlocked"; "Collection.reclaimNodesUnlocked"; "Collection.rootAddRef"; "Collection.rootDecRef"; "Collection.rootDecRefUnlocked"; "Store.ItemAddRef"; "Store.ItemAlloc"; "Store.ItemDecRef"; "Store.ItemValRead"; "Store.visitNodes"; "ascendChoice"; "descendChoice"; "itemBa.getKeyLength"; "itemBa.getLength"; "itemBa.getPriority"; "itemBa.getValLength"; "itemBa.populate"; "itemLoc.Item"; "itemLoc.Loc"; "itemLoc.casItem"; "itemLoc.read"; "node.Evict"; "node.setNumBytes"; "node.setNumNodes"; "nodeLoc.LocNode"; "nodeLoc.Node"; "nodeLoc.isEmpty"; "nodeLoc.read"; "nodeLoc.setNode"; "ploc.isEmpty"; "ploc.read"; "populateNode"]);
+  ("Collection.VisitItemsDescend", ["<dynamic:func(int,*gkvlite.node)(bool,*gkvlite.nodeLoc,*gkvlite.nodeLoc)>"; "Collection.VisitItemsDescend"; "Collection.VisitItemsDescendEx"; "Collection.freeNodeLoc"; "Collection.freeNodeUnlocked"; "Collection.freeRootNodeLoc"; "Collection.markTreeReclaimableUnlocked"; "Collection.reclaimNodesUnlocked"; "Collection.rootAddRef"; "Collection.rootDecRef"; "Collection.rootDecRefUnlocked"; "Store.ItemAddRef"; "Store.ItemAlloc"; "Store.ItemDecRef"; "Store.ItemValRead"; "Store.visitNodes"; "ascendChoice"; "descendChoice"; "itemBa.getKeyLength"; "itemBa.getLength"; "itemBa.getPriority"; "itemBa.getValLength"; "itemBa.populate"; "itemLoc.Item"; "itemLoc.Loc"; "itemLoc.casItem"; "itemLoc.read"; "node.Evict"; "node.setNumBytes"; "node.setNumNodes"; "nodeLoc.LocNode"; "nodeLoc.Node"; "nodeLoc.isEmpty"; "nodeLoc.read"; "nodeLoc.setNode"; "ploc.isEmpty"; "ploc.read"; "populateNode"]);
+  ("Collection.VisitItemsDescendEx", ["<dynamic:func(int,*gkvlite.node)(bool,*gkvlite.nodeLoc,*gkvlite.nodeLoc)>"; "Collection.VisitItemsDescendEx"; "Collection.freeNodeLoc"; "Collection.freeNodeUnlocked"; "Collection.freeRootNodeLoc"; "Collection.markTreeReclaimableUnlocked"; "Collection.reclaimNodesUnlocked"; "Collection.rootAddRef"; "Collection.rootDecRef"; "Collection.rootDecRefUnlocked"; "Store.ItemAddRef"; "Store.ItemAlloc"; "Store.ItemDecRef"; "Store.ItemValRead"; "Store.visitNodes"; "ascendChoice"; "descendChoice"; "itemBa.getKeyLength"; "itemBa.getLength"; "itemBa.getPriority"; "itemBa.getValLength"; "itemBa.populate"; "itemLoc.Item"; "itemLoc.Loc"; "itemLoc.casItem"; "itemLoc.read"; "node.Evict"; "node.setNumBytes"; "node.setNumNodes"; "nodeLoc.LocNode"; "nodeLoc.Node"; "nodeLoc.isEmpty"; "nodeLoc.read"; "nodeLoc.setNode"; "ploc.isEmpty"; "ploc.read"; "populateNode"]);
   ("Collection.VisitItemsRandom", ["<dynamic:func(*gkvlite.node)(*gkvlite.nodeLoc,bool)>"; "<dynamic:func(int,*gkvlite.node)(bool,*gkvlite.nodeLoc,*gkvlite.nodeLoc)>"; "<lit:Collection.EvictSomeItems#1>"; "<lit:Collection.MaxItem#1>"; "<lit:Collection.MinItem#1>"; "Collection.Len"; "Collection.MinItem"; "Collection.VisitItemsAscendEx"; "Collection.VisitItemsRandom"; "Collection.determineBlocks"; "Collection.freeNodeLoc"; "Collection.freeNodeUnlocked"; "Collection.freeRootNodeLoc"; "Collection.markTreeReclaimableUnlocked"; "Collection.reclaimNodesUnlocked"; "Collection.rootAddRef"; "Collection.rootDecRef"; "Collection.rootDecRefUnlocked"; "RandBm"; "Store.ItemAddRef"; "Store.ItemAlloc"; "Store.ItemDecRef"; "Store.ItemValRead"; "Store.visitNodes"; "Store.walk"; "ascendChoice"; "descendChoice"; "itemBa.getKeyLength"; "itemBa.getLength"; "itemBa.getPriority"; "itemBa.getValLength"; "itemBa.populate"; "itemLoc.Item"; "itemLoc.Loc"; "itemLoc.casItem"; "itemLoc.read"; "node.Evict"; "node.setNumBytes"; "node.setNumNodes"; "nodeLoc.LocNode"; "nodeLoc.Node"; "nodeLoc.isEmpty"; "nodeLoc.read"; "nodeLoc.setNode"; "ploc.isEmpty"; "ploc.read"; "populateNode"]);
   ("Collection.Write", ["Collection.Write"; "Collection.freeNodeLoc"; "Collection.freeNodeUnlocked"; "Collection.freeRootNodeLoc"; "Collection.markTreeReclaimableUnlocked"; "Collection.reclaimNodesUnlocked"; "Collection.rootAddRef"; "Collection.rootDecRef"; "Collection.rootDecRefUnlocked"; "Collection.write"; "Collection.writeItems"; "Collection.writeNodes"; "Item.NumValBytes"; "Store.ItemDecRef"; "Store.ItemValWrite"; "Store.getSize"; "Store.setSize"; "itemBa.render"; "itemLoc.Item"; "itemLoc.Loc"; "itemLoc.setLoc"; "itemLoc.write"; "node.populateDiskStruct"; "nodeLoc.Loc"; "nodeLoc.LocNode"; "nodeLoc.Node"; "nodeLoc.isEmpty"; "nodeLoc.setLoc"; "nodeLoc.write"; "ploc.isEmpty"; "ploc.write"]);
   ("Collection.closeCollection", ["Collection.closeCollection"; "Collection.freeNodeLoc"; "Collection.freeNodeUnlocked"; "Collection.freeRootNodeLoc"; "Collection.markTreeReclaimableUnlocked"; "Collection.reclaimNodesUnlocked"; "Collection.rootDecRef"; "Collection.rootDecRefUnlocked"; "Store.ItemDecRef"; "itemLoc.Item"; "nodeLoc.Node"; "nodeLoc.isEmpty"; "ploc.isEmpty"]);
@@ -264,9 +264,9 @@ Definition g_reach : list (string * list string) := [
   ("Collection.freeNodeLoc", ["Collection.freeNodeLoc"]);
   ("Collection.freeNodeUnlocked", ["Collection.freeNodeUnlocked"; "Store.ItemDecRef"; "itemLoc.Item"]);
   ("Collection.freeRootNodeLoc", ["Collection.freeRootNodeLoc"]);
-  ("Collection.iterate", ["<dynamic:func(*gkvlite.Collection,gkvlite.ItemVisitor)(error)>"; "<dynamic:func(int,*gkvlite.node)(bool,*gkvlite.nodeLoc,*gkvlite.nodeLoc)>"; "<lit:Collection.iteratorVisitorAscend#1>"; "<lit:Collection.iteratorVisitorDescend#1>"; "Collection.VisitItemsAscend"; "Collection.VisitItemsAscendEx"; "Collection.VisitItemsDescend"; "Collection.VisitItemsDescendEx"; "Collection.freeNodeLoc"; "Collection.freeNodeUnlocked"; "Collection.freeRootNodeLoc"; "Collection.iterate"; "Collection.markTreeReclaimableUnlocked"; "Collection.reclaimNodesUnlocked"; "Collection.rootAddRef"; "Collection.rootDecRef"; "Collection.rootDecRefUnlocked"; "Store.ItemAlloc"; "Store.ItemDecRef"; "Store.ItemValRead"; "Store.visitNodes"; "ascendChoice"; "descendChoice"; "itemBa.getKeyLength"; "itemBa.getLength"; "itemBa.getPriority"; "itemBa.getValLength"; "itemBa.populate"; "itemLoc.Item"; "itemLoc.Loc"; "itemLoc.casItem"; "itemLoc.read"; "node.Evict"; "node.setNumBytes"; "node.setNumNodes"; "nodeLoc.LocNode"; "nodeLoc.Node"; "nodeLoc.isEmpty"; "nodeLoc.read"; "nodeLoc.setNode"; "ploc.isEmpty"; "ploc.read"; "populateNode"]);
-  ("Collection.iteratorVisitorAscend", ["<dynamic:func(*gkvlite.Collection,gkvlite.ItemVisitor)(error)>"; "<dynamic:func(int,*gkvlite.node)(bool,*gkvlite.nodeLoc,*gkvlite.nodeLoc)>"; "<lit:Collection.iteratorVisitorAscend#1>"; "<lit:Collection.iteratorVisitorDescend#1>"; "Collection.VisitItemsAscend"; "Collection.VisitItemsAscendEx"; "Collection.VisitItemsDescend"; "Collection.VisitItemsDescendEx"; "Collection.freeNodeLoc"; "Collection.freeNodeUnlocked"; "Collection.freeRootNodeLoc"; "Collection.iterate"; "Collection.iteratorVisitorAscend"; "Collection.markTreeReclaimableUnlocked"; "Collection.reclaimNodesUnlocked"; "Collection.rootAddRef"; "Collection.rootDecRef"; "Collection.rootDecRefUnlocked"; "Store.ItemAlloc"; "Store.ItemDecRef"; "Store.ItemValRead"; "Store.visitNodes"; "ascendChoice"; "descendChoice"; "itemBa.getKeyLength"; "itemBa.getLength"; "itemBa.getPriority"; "itemBa.getValLength"; "itemBa.populate"; "itemLoc.Item"; "itemLoc.Loc"; "itemLoc.casItem"; "itemLoc.read"; "node.Evict"; "node.setNumBytes"; "node.setNumNodes"; "nodeLoc.LocNode"; "nodeLoc.Node"; "nodeLoc.isEmpty"; "nodeLoc.read"; "nodeLoc.setNode"; "ploc.isEmpty"; "ploc.read"; "populateNode"]);
-  ("Collection.iteratorVisitorDescend", ["<dynamic:func(*gkvlite.Collection,gkvlite.ItemVisitor)(error)>"; "<dynamic:func(int,*gkvlite.node)(bool,*gkvlite.nodeLoc,*gkvlite.nodeLoc)>"; "<lit:Collection.iteratorVisitorAscend#1>"; "<lit:Collection.iteratorVisitorDescend#1>"; "Collection.VisitItemsAscend"; "Collection.VisitItemsAscendEx"; "Collection.VisitItemsDescend"; "Collection.VisitItemsDescendEx"; "Collection.freeNodeLoc"; "Collection.freeNodeUnlocked"; "Collection.freeRootNodeLoc"; "Collection.iterate"; "Collection.iteratorVisitorDescend"; "Collection.markTreeReclaimableUnlocked"; "Collection.reclaimNodesUnlocked"; "Collection.rootAddRef"; "Collection.rootDecRef"; "Collection.rootDecRefUnlocked"; "Store.ItemAlloc"; "Store.ItemDecRef"; "Store.ItemValRead"; "Store.visitNodes"; "ascendChoice"; "descendChoice"; "itemBa.getKeyLength"; "itemBa.getLength"; "itemBa.getPriority"; "itemBa.getValLength"; "itemBa.populate"; "itemLoc.Item"; "itemLoc.Loc"; "itemLoc.casItem"; "itemLoc.read"; "node.Evict"; "node.setNumBytes"; "node.setNumNodes"; "nodeLoc.LocNode"; "nodeLoc.Node"; "nodeLoc.isEmpty"; "nodeLoc.read"; "nodeLoc.setNode"; "ploc.isEmpty"; "ploc.read"; "populateNode"]);
+  ("Collection.iterate", ["<dynamic:func(*gkvlite.Collection,gkvlite.ItemVisitor)(error)>"; "<dynamic:func(int,*gkvlite.node)(bool,*gkvlite.nodeLoc,*gkvlite.nodeLoc)>"; "<lit:Collection.iteratorVisitorAscend#1>"; "<lit:Collection.iteratorVisitorDescend#1>"; "Collection.VisitItemsAscend"; "Collection.VisitItemsAscendEx"; "Collection.VisitItemsDescend"; "Collection.VisitItemsDescendEx"; "Collection.freeNodeLoc"; "Collection.freeNodeUnlocked"; "Collection.freeRootNodeLoc"; "Collection.iterate"; "Collection.markTreeReclaimableUnlocked"; "Collection.reclaimNodesUnlocked"; "Collection.rootAddRef"; "Collection.rootDecRef"; "Collection.rootDecRefUnlocked"; "Store.ItemAddRef"; "Store.ItemAlloc"; "Store.ItemDecRef"; "Store.ItemValRead"; "Store.visitNodes"; "ascendChoice"; "descendChoice"; "itemBa.getKeyLength"; "itemBa.getLength"; "itemBa.getPriority"; "itemBa.getValLength"; "itemBa.populate"; "itemLoc.Item"; "itemLoc.Loc"; "itemLoc.casItem"; "itemLoc.read"; "node.Evict"; "node.setNumBytes"; "node.setNumNodes"; "nodeLoc.LocNode"; "nodeLoc.Node"; "nodeLoc.isEmpty"; "nodeLoc.read"; "nodeLoc.setNode"; "ploc.isEmpty"; "ploc.read"; "populateNode"]);
+  ("Collection.iteratorVisitorAscend", ["<dynamic:func(*gkvlite.Collection,gkvlite.ItemVisitor)(error)>"; "<dynamic:func(int,*gkvlite.node)(bool,*gkvlite.nodeLoc,*gkvlite.nodeLoc)>"; "<lit:Collection.iteratorVisitorAscend#1>"; "<lit:Collection.iteratorVisitorDescend#1>"; "Collection.VisitItemsAscend"; "Collection.VisitItemsAscendEx"; "Collection.VisitItemsDescend"; "Collection.VisitItemsDescendEx"; "Collection.freeNodeLoc"; "Collection.freeNodeUnlocked"; "Collection.freeRootNodeLoc"; "Collection.iterate"; "Collection.iteratorVisitorAscend"; "Collection.markTreeReclaimableUnlocked"; "Collection.reclaimNodesUnlocked"; "Collection.rootAddRef"; "Collection.rootDecRef"; "Collection.rootDecRefUnlocked"; "Store.ItemAddRef"; "Store.ItemAlloc"; "Store.ItemDecRef"; "Store.ItemValRead"; "Store.visitNodes"; "ascendChoice"; "descendChoice"; "itemBa.getKeyLength"; "itemBa.getLength"; "itemBa.getPriority"; "itemBa.getValLength"; "itemBa.populate"; "itemLoc.Item"; "itemLoc.Loc"; "itemLoc.casItem"; "itemLoc.read"; "node.Evict"; "node.setNumBytes"; "node.setNumNodes"; "nodeLoc.LocNode"; "nodeLoc.Node"; "nodeLoc.isEmpty"; "nodeLoc.read"; "nodeLoc.setNode"; "ploc.isEmpty"; "ploc.read"; "populateNode"]);
+  ("Collection.iteratorVisitorDescend", ["<dynamic:func(*gkvlite.Collection,gkvlite.ItemVisitor)(error)>"; "<dynamic:func(int,*gkvlite.node)(bool,*gkvlite.nodeLoc,*gkvlite.nodeLoc)>"; "<lit:Collection.iteratorVisitorAscend#1>"; "<lit:Collection.iteratorVisitorDescend#1>"; "Collection.VisitItemsAscend"; "Collection.VisitItemsAscendEx"; "Collection.VisitItemsDescend"; "Collection.VisitItemsDescendEx"; "Collection.freeNodeLoc"; "Collection.freeNodeUnlocked"; "Collection.freeRootNodeLoc"; "Collection.iterate"; "Collection.iteratorVisitorDescend"; "Collection.markTreeReclaimableUnlocked"; "Collection.reclaimNodesUnlocked"; "Collection.rootAddRef"; "Collection.rootDecRef"; "Collection.rootDecRefUnlocked"; "Store.ItemAddRef"; "Store.ItemAlloc"; "Store.ItemDecRef"; "Store.ItemValRead"; "Store.visitNodes"; "ascendChoice"; "descendChoice"; "itemBa.getKeyLength"; "itemBa.getLength"; "itemBa.getPriority"; "itemBa.getValLength"; "itemBa.populate"; "itemLoc.Item"; "itemLoc.Loc"; "itemLoc.casItem"; "itemLoc.read"; "node.Evict"; "node.setNumBytes"; "node.setNumNodes"; "nodeLoc.LocNode"; "nodeLoc.Node"; "nodeLoc.isEmpty"; "nodeLoc.read"; "nodeLoc.setNode"; "ploc.isEmpty"; "ploc.read"; "populateNode"]);
   ("Collection.markReclaimable", ["Collection.markReclaimable"]);
   ("Collection.markTreeReclaimableUnlocked", ["Collection.markTreeReclaimableUnlocked"; "nodeLoc.Node"; "nodeLoc.isEmpty"; "ploc.isEmpty"]);
   ("Collection.mkNode", ["Collection.mkNode"; "Store.ItemAddRef"; "itemLoc.Copy"; "itemLoc.Item"; "nodeLoc.Copy"]);
@@ -318,7 +318,7 @@ Definition g_reach : list (string * list string) := [
   ("Store.split", ["Collection.freeNodeLoc"; "Collection.markReclaimable"; "Collection.mkNode"; "Collection.mkNodeLoc"; "Item.NumBytes"; "Item.NumValBytes"; "Store.ItemAddRef"; "Store.ItemAlloc"; "Store.ItemDecRef"; "Store.ItemValRead"; "Store.split"; "itemBa.getKeyLength"; "itemBa.getLength"; "itemBa.getPriority"; "itemBa.getValLength"; "itemBa.populate"; "itemLoc.Copy"; "itemLoc.Item"; "itemLoc.Loc"; "itemLoc.NumBytes"; "itemLoc.casItem"; "itemLoc.read"; "node.setNumBytes"; "node.setNumNodes"; "nodeLoc.Copy"; "nodeLoc.LocNode"; "nodeLoc.isEmpty"; "nodeLoc.read"; "nodeLoc.setNode"; "numInfo"; "ploc.isEmpty"; "ploc.read"; "populateNode"]);
   ("Store.union", ["Collection.freeNodeLoc"; "Collection.markReclaimable"; "Collection.mkNode"; "Collection.mkNodeLoc"; "Item.NumBytes"; "Item.NumValBytes"; "Store.ItemAddRef"; "Store.ItemAlloc"; "Store.ItemDecRef"; "Store.ItemValRead"; "Store.split"; "Store.union"; "itemBa.getKeyLength"; "itemBa.getLength"; "itemBa.getPriority"; "itemBa.getValLength"; "itemBa.populate"; "itemLoc.Copy"; "itemLoc.Item"; "itemLoc.Loc"; "itemLoc.NumBytes"; "itemLoc.casItem"; "itemLoc.read"; "node.setNumBytes"; "node.setNumNodes"; "nodeLoc.Copy"; "nodeLoc.LocNode"; "nodeLoc.Node"; "nodeLoc.isEmpty"; "nodeLoc.read"; "nodeLoc.setNode"; "numInfo"; "ploc.isEmpty"; "ploc.read"; "populateNode"]);
   ("Store.validateAndSetCollections", ["<json.Unmarshal>"; "Collection.Name"; "Collection.UnmarshalJSON"; "Collection.mkNodeLoc"; "Collection.mkRootNodeLoc"; "Collection.rootCAS"; "Store.setColl"; "Store.validateAndSetCollections"]);
-  ("Store.visitNodes", ["<dynamic:func(int,*gkvlite.node)(bool,*gkvlite.nodeLoc,*gkvlite.nodeLoc)>"; "Store.ItemAlloc"; "Store.ItemDecRef"; "Store.ItemValRead"; "Store.visitNodes"; "ascendChoice"; "descendChoice"; "itemBa.getKeyLength"; "itemBa.getLength"; "itemBa.getPriority"; "itemBa.getValLength"; "itemBa.populate"; "itemLoc.Item"; "itemLoc.Loc"; "itemLoc.casItem"; "itemLoc.read"; "node.Evict"; "node.setNumBytes"; "node.setNumNodes"; "nodeLoc.LocNode"; "nodeLoc.isEmpty"; "nodeLoc.read"; "nodeLoc.setNode"; "ploc.isEmpty"; "ploc.read"; "populateNode"]);
+  ("Store.visitNodes", ["<dynamic:func(int,*gkvlite.node)(bool,*gkvlite.nodeLoc,*gkvlite.nodeLoc)>"; "Store.ItemAddRef"; "Store.ItemAlloc"; "Store.ItemDecRef"; "Store.ItemValRead"; "Store.visitNodes"; "ascendChoice"; "descendChoice"; "itemBa.getKeyLength"; "itemBa.getLength"; "itemBa.getPriority"; "itemBa.getValLength"; "itemBa.populate"; "itemLoc.Item"; "itemLoc.Loc"; "itemLoc.casItem"; "itemLoc.read"; "node.Evict"; "node.setNumBytes"; "node.setNumNodes"; "nodeLoc.LocNode"; "nodeLoc.isEmpty"; "nodeLoc.read"; "nodeLoc.setNode"; "ploc.isEmpty"; "ploc.read"; "populateNode"]);
   ("Store.walk", ["<dynamic:func(*gkvlite.node)(*gkvlite.nodeLoc,bool)>"; "<lit:Collection.EvictSomeItems#1>"; "<lit:Collection.MaxItem#1>"; "<lit:Collection.MinItem#1>"; "Collection.freeNodeLoc"; "Collection.freeNodeUnlocked"; "Collection.freeRootNodeLoc"; "Collection.markTreeReclaimableUnlocked"; "Collection.reclaimNodesUnlocked"; "Collection.rootAddRef"; "Collection.rootDecRef"; "Collection.rootDecRefUnlocked"; "Store.ItemAddRef"; "Store.ItemAlloc"; "Store.ItemDecRef"; "Store.ItemValRead"; "Store.walk"; "itemBa.getKeyLength"; "itemBa.getLength"; "itemBa.getPriority"; "itemBa.getValLength"; "itemBa.populate"; "itemLoc.Item"; "itemLoc.Loc"; "itemLoc.casItem"; "itemLoc.read"; "node.Evict"; "node.setNumBytes"; "node.setNumNodes"; "nodeLoc.LocNode"; "nodeLoc.Node"; "nodeLoc.isEmpty"; "nodeLoc.read"; "nodeLoc.setNode"; "ploc.isEmpty"; "ploc.read"; "populateNode"]);
   ("Store.writeRoots", ["<json.Marshal>"; "Collection.MarshalJSON"; "Collection.freeNodeLoc"; "Collection.freeNodeUnlocked"; "Collection.freeRootNodeLoc"; "Collection.markTreeReclaimableUnlocked"; "Collection.reclaimNodesUnlocked"; "Collection.rootAddRef"; "Collection.rootDecRef"; "Collection.rootDecRefUnlocked"; "Store.ItemDecRef"; "Store.writeRoots"; "itemLoc.Item"; "nodeLoc.Loc"; "nodeLoc.Node"; "nodeLoc.isEmpty"; "ploc.isEmpty"; "rootNodeLoc.MarshalJSON"]);
   ("StoreFile.Stat", ["StoreFile.Stat"]);
@@ -371,8 +371,8 @@ Definition g_reach : list (string * list string) := [
   ("toBa", ["ByteAble.ToBa"; "toBa"]);
   ("view.emit", ["view.emit"]);
   ("view.emitItem", ["view.emit"; "view.emitItem"]);
-  ("view.main", ["<dynamic:func(int,*gkvlite.node)(bool,*gkvlite.nodeLoc,*gkvlite.nodeLoc)>"; "<json.Unmarshal>"; "Collection.Name"; "Collection.UnmarshalJSON"; "Collection.VisitItemsAscendEx"; "Collection.freeNodeLoc"; "Collection.freeNodeUnlocked"; "Collection.freeRootNodeLoc"; "Collection.markTreeReclaimableUnlocked"; "Collection.mkNodeLoc"; "Collection.mkRootNodeLoc"; "Collection.reclaimNodesUnlocked"; "Collection.rootAddRef"; "Collection.rootCAS"; "Collection.rootDecRef"; "Collection.rootDecRefUnlocked"; "NewStore"; "NewStoreEx"; "Store.GetCollection"; "Store.GetCollectionNames"; "Store.ItemAlloc"; "Store.ItemDecRef"; "Store.ItemValRead"; "Store.checkAndReadRoots"; "Store.getColl"; "Store.readRoots"; "Store.readRootsEnd"; "Store.readRootsScan"; "Store.scanBackwardsForMagicEnd"; "Store.setColl"; "Store.validateAndSetCollections"; "Store.visitNodes"; "StoreFile.Stat"; "ascendChoice"; "collNames"; "descendChoice"; "itemBa.getKeyLength"; "itemBa.getLength"; "itemBa.getPriority"; "itemBa.getValLength"; "itemBa.populate"; "itemLoc.Item"; "itemLoc.Loc"; "itemLoc.casItem"; "itemLoc.read"; "node.Evict"; "node.setNumBytes"; "node.setNumNodes"; "nodeLoc.LocNode"; "nodeLoc.Node"; "nodeLoc.isEmpty"; "nodeLoc.read"; "nodeLoc.setNode"; "ploc.isEmpty"; "ploc.read"; "populateNode"; "view.main"; "view.mainDo"]);
-  ("view.mainDo", ["<dynamic:func(int,*gkvlite.node)(bool,*gkvlite.nodeLoc,*gkvlite.nodeLoc)>"; "<json.Unmarshal>"; "Collection.Name"; "Collection.UnmarshalJSON"; "Collection.VisitItemsAscendEx"; "Collection.freeNodeLoc"; "Collection.freeNodeUnlocked"; "Collection.freeRootNodeLoc"; "Collection.markTreeReclaimableUnlocked"; "Collection.mkNodeLoc"; "Collection.mkRootNodeLoc"; "Collection.reclaimNodesUnlocked"; "Collection.rootAddRef"; "Collection.rootCAS"; "Collection.rootDecRef"; "Collection.rootDecRefUnlocked"; "NewStore"; "NewStoreEx"; "Store.GetCollection"; "Store.GetCollectionNames"; "Store.ItemAlloc"; "Store.ItemDecRef"; "Store.ItemValRead"; "Store.checkAndReadRoots"; "Store.getColl"; "Store.readRoots"; "Store.readRootsEnd"; "Store.readRootsScan"; "Store.scanBackwardsForMagicEnd"; "Store.setColl"; "Store.validateAndSetCollections"; "Store.visitNodes"; "StoreFile.Stat"; "ascendChoice"; "collNames"; "descendChoice"; "itemBa.getKeyLength"; "itemBa.getLength"; "itemBa.getPriority"; "itemBa.getValLength"; "itemBa.populate"; "itemLoc.Item"; "itemLoc.Loc"; "itemLoc.casItem"; "itemLoc.read"; "node.Evict"; "node.setNumBytes"; "node.setNumNodes"; "nodeLoc.LocNode"; "nodeLoc.Node"; "nodeLoc.isEmpty"; "nodeLoc.read"; "nodeLoc.setNode"; "ploc.isEmpty"; "ploc.read"; "populateNode"; "view.mainDo"]);
+  ("view.main", ["<dynamic:func(int,*gkvlite.node)(bool,*gkvlite.nodeLoc,*gkvlite.nodeLoc)>"; "<json.Unmarshal>"; "Collection.Name"; "Collection.UnmarshalJSON"; "Collection.VisitItemsAscendEx"; "Collection.freeNodeLoc"; "Collection.freeNodeUnlocked"; "Collection.freeRootNodeLoc"; "Collection.markTreeReclaimableUnlocked"; "Collection.mkNodeLoc"; "Collection.mkRootNodeLoc"; "Collection.reclaimNodesUnlocked"; "Collection.rootAddRef"; "Collection.rootCAS"; "Collection.rootDecRef"; "Collection.rootDecRefUnlocked"; "NewStore"; "NewStoreEx"; "Store.GetCollection"; "Store.GetCollectionNames"; "Store.ItemAddRef"; "Store.ItemAlloc"; "Store.ItemDecRef"; "Store.ItemValRead"; "Store.checkAndReadRoots"; "Store.getColl"; "Store.readRoots"; "Store.readRootsEnd"; "Store.readRootsScan"; "Store.scanBackwardsForMagicEnd"; "Store.setColl"; "Store.validateAndSetCollections"; "Store.visitNodes"; "StoreFile.Stat"; "ascendChoice"; "collNames"; "descendChoice"; "itemBa.getKeyLength"; "itemBa.getLength"; "itemBa.getPriority"; "itemBa.getValLength"; "itemBa.populate"; "itemLoc.Item"; "itemLoc.Loc"; "itemLoc.casItem"; "itemLoc.read"; "node.Evict"; "node.setNumBytes"; "node.setNumNodes"; "nodeLoc.LocNode"; "nodeLoc.Node"; "nodeLoc.isEmpty"; "nodeLoc.read"; "nodeLoc.setNode"; "ploc.isEmpty"; "ploc.read"; "populateNode"; "view.main"; "view.mainDo"]);
+  ("view.mainDo", ["<dynamic:func(int,*gkvlite.node)(bool,*gkvlite.nodeLoc,*gkvlite.nodeLoc)>"; "<json.Unmarshal>"; "Collection.Name"; "Collection.UnmarshalJSON"; "Collection.VisitItemsAscendEx"; "Collection.freeNodeLoc"; "Collection.freeNodeUnlocked"; "Collection.freeRootNodeLoc"; "Collection.markTreeReclaimableUnlocked"; "Collection.mkNodeLoc"; "Collection.mkRootNodeLoc"; "Collection.reclaimNodesUnlocked"; "Collection.rootAddRef"; "Collection.rootCAS"; "Collection.rootDecRef"; "Collection.rootDecRefUnlocked"; "NewStore"; "NewStoreEx"; "Store.GetCollection"; "Store.GetCollectionNames"; "Store.ItemAddRef"; "Store.ItemAlloc"; "Store.ItemDecRef"; "Store.ItemValRead"; "Store.checkAndReadRoots"; "Store.getColl"; "Store.readRoots"; "Store.readRootsEnd"; "Store.readRootsScan"; "Store.scanBackwardsForMagicEnd"; "Store.setColl"; "Store.validateAndSetCollections"; "Store.visitNodes"; "StoreFile.Stat"; "ascendChoice"; "collNames"; "descendChoice"; "itemBa.getKeyLength"; "itemBa.getLength"; "itemBa.getPriority"; "itemBa.getValLength"; "itemBa.populate"; "itemLoc.Item"; "itemLoc.Loc"; "itemLoc.casItem"; "itemLoc.read"; "node.Evict"; "node.setNumBytes"; "node.setNumNodes"; "nodeLoc.LocNode"; "nodeLoc.Node"; "nodeLoc.isEmpty"; "nodeLoc.read"; "nodeLoc.setNode"; "ploc.isEmpty"; "ploc.read"; "populateNode"; "view.mainDo"]);
   ("view.usage", ["view.usage"]);
   ("withAllocLocks", ["<dynamic:func()()>"; "<lit:Collection.AllocStats#1>"; "<lit:Collection.iterate#1>"; "<lit:Store.Flush#1>"; "Collection.freeNodeLoc"; "Collection.freeNodeUnlocked"; "Collection.freeRootNodeLoc"; "Collection.markTreeReclaimableUnlocked"; "Collection.reclaimNodesUnlocked"; "Collection.rootDecRef"; "Collection.rootDecRefUnlocked"; "Store.ItemDecRef"; "itemLoc.Item"; "nodeLoc.Node"; "nodeLoc.isEmpty"; "ploc.isEmpty"; "view.usage"; "withAllocLocks"])
 ].
@@ -401,7 +401,7 @@ Definition g_code : list (string * list gstmt) := [
   ("<lit:Collection.VisitItemsAscend#1>",
     [SReturn [(GCall "v" [(GVar "i")])]]);
   ("<lit:Collection.VisitItemsAscendBlockEx#1>",
-    [SIf [] (GBin "==" (GVar "j") (GInt 0)) [SAssign [(GVar "blockStore")] "=" [(GCall "append" [(GVar "blockStore"); (GVar "i.Key")])];
+    [SIf [] (GBin "==" (GVar "j") (GInt 0)) [SAssign [(GVar "blockStore")] "=" [(GCall "append" [(GVar "blockStore"); (GCall "append" [(GCall "[]byte" [GNil]); (GVar "i.Key")])])];
     SAssign [(GVar "j")] "=" [(GInt 1)]] [SIf [] (GBin ">=" (GVar "j") (GVar "lenBlock")) [SAssign [(GVar "j")] "=" [(GInt 0)]] [SIncDec (GVar "j") true]];
     SReturn [(GVar "true")]]);
   ("<lit:Collection.VisitItemsAscendBlockEx#2>",
@@ -410,14 +410,15 @@ Definition g_code : list (string * list gstmt) := [
     SIncDec (GVar "j") true;
     SReturn [(GCall "visitor" [(GVar "i"); (GVar "depth")])]]);
   ("<lit:Collection.VisitItemsAscendEx#1>",
-    [SIf [] (GBin "&&" (GBin "!=" (GVar "prevVisitItem") GNil) (GBin ">" (GCall "t.compare" [(GVar "prevVisitItem.Key"); (GVar "i.Key")]) (GInt 0))) [SAssign [(GVar "errCheckedVisitor")] "=" [(GCall "fmt.Errorf" [(GBin "+" (GLit """corrupted / out-of-order index""") (GLit """, key: %s vs %s, coll: %p, collName: %s, store: %p, storeFile: %v""")); (GCall "string" [(GVar "prevVisitItem.Key")]); (GCall "string" [(GVar "i.Key")]); (GVar "t"); (GVar "t.name"); (GVar "t.store"); (GVar "t.store.file")])];
+    [SIf [] (GBin "&&" (GVar "havePrevVisitKey") (GBin ">" (GCall "t.compare" [(GVar "prevVisitKey"); (GVar "i.Key")]) (GInt 0))) [SAssign [(GVar "errCheckedVisitor")] "=" [(GCall "fmt.Errorf" [(GBin "+" (GLit """corrupted / out-of-order index""") (GLit """, key: %s vs %s, coll: %p, collName: %s, store: %p, storeFile: %v""")); (GCall "string" [(GVar "prevVisitKey")]); (GCall "string" [(GVar "i.Key")]); (GVar "t"); (GVar "t.name"); (GVar "t.store"); (GVar "t.store.file")])];
     SReturn [(GVar "false")]] [];
-    SAssign [(GVar "prevVisitItem")] "=" [(GVar "i")];
+    SAssign [(GVar "prevVisitKey")] "=" [(GCall "append" [(GCall "[:]" [(GVar "prevVisitKey"); GNil; (GInt 0)]); (GVar "i.Key")])];
+    SAssign [(GVar "havePrevVisitKey")] "=" [(GVar "true")];
     SReturn [(GCall "visitor" [(GVar "i"); (GVar "depth")])]]);
   ("<lit:Collection.VisitItemsDescend#1>",
     [SReturn [(GCall "v" [(GVar "i")])]]);
   ("<lit:Collection.VisitItemsRandom#1>",
-    [SIf [] (GBin "==" (GVar "j") (GInt 0)) [SAssign [(GVar "blockStore")] "=" [(GCall "append" [(GVar "blockStore"); (GVar "i.Key")])];
+    [SIf [] (GBin "==" (GVar "j") (GInt 0)) [SAssign [(GVar "blockStore")] "=" [(GCall "append" [(GVar "blockStore"); (GCall "append" [(GCall "[]byte" [GNil]); (GVar "i.Key")])])];
     SAssign [(GVar "j")] "=" [(GInt 1)]] [SIf [] (GBin ">=" (GVar "j") (GVar "lenBlock")) [SAssign [(GVar "j")] "=" [(GInt 0)]] [SIncDec (GVar "j") true]];
     SReturn [(GVar "true")]]);
   ("<lit:Collection.VisitItemsRandom#2>",
@@ -425,7 +426,7 @@ Definition g_code : list (string * list gstmt) := [
     SReturn [(GCall "visitor" [(GVar "itm"); (GVar "depth")])]] [];
     SAssign [(GVar "first")] "=" [(GVar "true")];
     SAssign [(GVar "advanced")] "=" [(GVar "true")];
-    SAssign [(GCall "[]" [(GVar "blockStore"); (GVar "i")])] "=" [(GVar "itm.Key")];
+    SAssign [(GCall "[]" [(GVar "blockStore"); (GVar "i")])] "=" [(GCall "append" [(GCall "[]byte" [GNil]); (GVar "itm.Key")])];
     SReturn [(GVar "false")]]);
   ("<lit:Collection.iterate#1>",
     [SOther "it.items <- i";
@@ -594,7 +595,8 @@ Definition g_code : list (string * list gstmt) := [
   ("Collection.VisitItemsAscendEx",
     [SAssign [(GVar "rnl")] ":=" [(GCall "t.rootAddRef" [])];
     SDefer (GCall "t.rootDecRef" [(GVar "rnl")]);
-    SVar "prevVisitItem" None;
+    SVar "prevVisitKey" None;
+    SAssign [(GVar "havePrevVisitKey")] ":=" [(GVar "false")];
     SVar "errCheckedVisitor" None;
     SAssign [(GVar "checkedVisitor")] ":=" [(GFun "<lit:Collection.VisitItemsAscendEx#1>")];
     SAssign [(GVar "_"); (GVar "err")] ":=" [(GCall "t.store.visitNodes" [(GVar "t"); (GVar "rnl.root"); (GVar "target"); (GVar "withValue"); (GVar "checkedVisitor"); (GInt 0); (GVar "ascendChoice")])];
@@ -1167,10 +1169,13 @@ Definition g_code : list (string * list gstmt) := [
     SAssign [(GVar "nNode")] "=" [GNil]] [];
     SAssign [(GVar "nItem"); (GVar "err")] ":=" [(GCall "nItemLoc.read" [(GVar "t"); (GVar "withValue")])];
     SIf [] (GBin "!=" (GVar "err") GNil) [SReturn [(GVar "false"); (GVar "err")]] [];
-    SIf [] (GUn "!" (GCall "visitor" [(GVar "nItem"); (GVar "depth")])) [SReturn [(GVar "false"); GNil]] [];
+    SExpr (GCall "o.ItemAddRef" [(GVar "t"); (GVar "nItem")]);
+    SIf [] (GUn "!" (GCall "visitor" [(GVar "nItem"); (GVar "depth")])) [SExpr (GCall "o.ItemDecRef" [(GVar "t"); (GVar "nItem")]);
+    SReturn [(GVar "false"); GNil]] [];
     SIf [] (GVar "saveMem") [SAssign [(GVar "nNode"); (GVar "_")] "=" [(GCall "n.read" [(GVar "o")])];
     SAssign [(GVar "n")] "=" [GNil];
-    SAssign [(GVar "_"); (GVar "_"); (GVar "choiceF")] "=" [(GCall "choiceFunc" [(GCall "t.compare" [(GVar "target"); (GVar "nItem.Key")]); (GVar "nNode")])]] []] [];
+    SAssign [(GVar "_"); (GVar "_"); (GVar "choiceF")] "=" [(GCall "choiceFunc" [(GCall "t.compare" [(GVar "target"); (GVar "nItem.Key")]); (GVar "nNode")])]] [];
+    SExpr (GCall "o.ItemDecRef" [(GVar "t"); (GVar "nItem")])] [];
     SReturn [(GCall "o.visitNodes" [(GVar "t"); (GVar "choiceF"); (GVar "target"); (GVar "withValue"); (GVar "visitor"); (GBin "+" (GVar "depth") (GInt 1)); (GVar "choiceFunc")])]]);
   ("Store.walk",
     [SAssign [(GVar "rnl")] ":=" [(GCall "t.rootAddRef" [])];
